@@ -360,7 +360,27 @@ pub mod sp {
         ensures #[trigger] rm1(s, s[i]) == s.remove(i)
     { reveal(rm1); lemma_nodup_pos(s, i); }
 
-    pub broadcast group group_wf { b_suffix_refl, b_suffix_pop, b_rm1_index, b_push_subrange, b_push_drop_last, b_insert_remove_same, b_push_last, b_wf_push, b_wf_mutated, b_rm_all_nodup, b_wf_len, b_rm1_len, b_wf_remove, b_wf_store, b_wf_touch, b_nodup_pos,
+    // ---- prefixes of a sequence (loops over `for x in &vec`)
+    pub broadcast proof fn b_take_contains(ks: Seq<String>, i: int, k: String)
+        requires 0 <= i < ks.len()
+        ensures #[trigger] ks.take(i + 1).contains(k) <==> (ks.take(i).contains(k) || ks[i] == k)
+    {
+        if ks.take(i + 1).contains(k) {
+            let t1 = ks.take(i + 1); let j = choose|j: int| 0 <= j < t1.len() && t1[j] == k;
+            if j < i { assert(ks.take(i)[j] == k); }
+        }
+        if ks.take(i).contains(k) {
+            let t0 = ks.take(i); let j = choose|j: int| 0 <= j < t0.len() && t0[j] == k;
+            assert(ks.take(i + 1)[j] == k);
+        }
+        if ks[i] == k { assert(ks.take(i + 1)[i] == k); }
+    }
+    pub broadcast proof fn b_take_full(ks: Seq<String>, n: int)
+        requires n == ks.len()
+        ensures #[trigger] ks.take(n) == ks
+    { assert(ks.take(n) =~= ks); }
+
+    pub broadcast group group_wf { b_take_contains, b_take_full, b_suffix_refl, b_suffix_pop, b_rm1_index, b_push_subrange, b_push_drop_last, b_insert_remove_same, b_push_last, b_wf_push, b_wf_mutated, b_rm_all_nodup, b_wf_len, b_rm1_len, b_wf_remove, b_wf_store, b_wf_touch, b_nodup_pos,
         b_pop_front_is_remove0, b_drop_first_is_remove0, b_pop_back_is_remove_last }
 
     // ---- memory totals: the sum of a per-entry size along the queue (under wf the queue enumerates the store exactly once)
